@@ -137,7 +137,9 @@ func (e *DecodeError) Error() string {
 	return fmt.Sprintf("resp: %s at offset %d", e.Msg, e.Offset)
 }
 
-const maxDepth = 64
+// maxDepth bounds the recursion of the reference decoder (replies nested a few thousand
+// levels deep are legal RESP and are produced by the deep-reply cases of C04).
+const maxDepth = 100000
 
 // LaxIntegers makes the decoder accept any CR/LF-free text as the payload of
 // an integer line (framing-only judgement).
